@@ -30,7 +30,7 @@ func checks() map[string]CheckDef {
 		Runs: []HRun{
 			{Pkg: "internal/zzverif/c20", Func: "HarnessValidate", Labels: []string{"C20/unsupported-engine-refused", "C20/empty-sqlite-path-refused", "C20/incomplete-postgres-settings-refused", "C20/missing-prepared-database-file-refused"}},
 			{Pkg: "internal/zzverif/c20", Func: "HarnessNoDbSection", Labels: []string{"C20/missing-database-section-refused"}},
-			{Pkg: "internal/zzverif/c20", Func: "HarnessPrecedence", Quick: [][]int64{{0}, {1}, {2}, {3}}, Witness: 100,
+			{Pkg: "internal/zzverif/c20", Func: "HarnessPrecedence", Quick: [][]int64{{0}, {1}, {2}, {3}}, Witness: 200,
 				Labels: []string{"C20/leaf-keys-enumerated", "C20/set-defaults-succeeds", "C20/load-succeeds", "C20/environment-over-file-over-default", "C20/keys-not-overridden-keep-their-defaults"}},
 			{Pkg: "internal/zzverif/c20", Func: "HarnessTwoKeys", Thorough: [][]int64{{1, 1}, {1, 2}, {3, 1}}, Witness: 200,
 				Labels: []string{"C20/set-defaults-succeeds", "C20/load-succeeds", "C20/environment-over-file-over-default", "C20/keys-not-overridden-keep-their-defaults"}},
@@ -173,6 +173,8 @@ func checks() map[string]CheckDef {
 				Labels: []string{"C10/authenticates-iff-admin-or-issued-and-not-revoked", "C10/other-tokens-unaffected-by-revocation", "C10/admin-always-authenticates-as-admin"}},
 			{Pkg: "transports/websocket", Func: "HarnessConnect", Quick: [][]int64{{1, 1}, {1, 0}}, Thorough: [][]int64{{3, 1}, {2, 0}},
 				Labels: []string{"C10/websocket-handshake-accepts-iff-token-valid", "C10/websocket-handshake-open-when-auth-off"}},
+			{Pkg: "transports/websocket", Func: "HarnessConnectAfterRevocation", Quick: [][]int64{{1}, {2}}, Thorough: [][]int64{{3}},
+				Labels: []string{"C10/websocket-handshake-accepts-iff-token-valid", "C10/revoke-succeeds", "C10/revoked-token-never-authenticates-afterwards", "C10/other-tokens-unaffected-by-revocation"}},
 		},
 		Bounds:  []string{"every sequence of n operations (quick n<=3, thorough n<=4) drawn from create / revoke(arbitrary value) / authenticate(arbitrary value), from an arbitrary tokens table of k rows (k<=4), arbitrary non-empty admin token; validity is checked through an arbitrary probe token against a set model", "websocket connect handshake: arbitrary token against the same stores, authentication on and off"},
 		Outside: []string{"pairwise distinctness of issued tokens is a property of uniuri's randomness: it is ASSUMED (a colliding token would be dropped silently by ON CONFLICT DO NOTHING)", "restarts: TokenService holds no state but the configured admin token, the table is SQLite's", "operations overlapping in time, except: one authentication of the same token served at any storage-operation boundary inside a revocation (HarnessRevokeRace)", "the centrifuge transport; only the OnConnecting handler registered by setupNode is executed"},
@@ -198,8 +200,10 @@ func checks() map[string]CheckDef {
 				Labels: []string{"C12/re-registering-an-active-url-is-refused", "C12/inactive-url-is-reactivated-with-zero-count", "C12/new-url-is-stored", "C12/stored-authorisation-is-the-documented-header", "C12/delete-removes-exactly-that-webhook"}},
 			{Pkg: "internal/zzverif/c12", Func: "HarnessReport", Quick: [][]int64{{1}, {2}}, Thorough: [][]int64{{3}},
 				Labels: []string{"C12/report-active-flag-and-error-count", "C12/report-time-and-status-of-last-attempt", "C12/unknown-webhook-is-an-error"}},
+			{Pkg: "internal/zzverif/c12", Func: "HarnessHistory", Quick: [][]int64{{1, 2}}, Thorough: [][]int64{{1, 3}, {2, 2}},
+				Labels: []string{"C12/history-leaves-no-state-outside-the-store"}},
 		},
-		Bounds:  []string{"one event delivered to an arbitrary webhooks table of k rows (quick k<=2, thorough k<=3): every column arbitrary, every per-call outcome in {200, other status 100..599, transport error, unreadable body}, max_tries any int >= 1; the step covers any history because the pre-state is arbitrary", "registration (bearer | custom header | none) / re-registration / deletion of an arbitrary URL against an arbitrary table", "report of an arbitrary stored row"},
+		Bounds:  []string{"one event delivered to an arbitrary webhooks table of k rows (quick k<=2, thorough k<=3): every column arbitrary, every per-call outcome in {200, other status 100..599, transport error, unreadable body}, max_tries any int >= 1; the step covers any history because the pre-state is arbitrary", "registration (bearer | custom header | none) / re-registration / deletion of an arbitrary URL against an arbitrary table", "report of an arbitrary stored row", "histories: n operations (event with outcomes 200 / transport error per delivery, registration of a stored or new url, deletion) on one long-lived service from an arbitrary table of k rows (quick k=1, n=2; thorough k=1, n=3 and k=2, n=2), then one more event delivered by that service and by a freshly assembled one over a copy of the store: same requests, same resulting store"},
 		Outside: []string{"a custom header literally named Content-Type (the sender sets that name itself; assumed different)", "the net/http client in transports/http/client (the header map handed to it is what is asserted)", "events delivered concurrently; the HTTP shell of the webhook endpoints is C16", "restart: the service keeps no webhook state in memory"},
 		Stubs:   []string{"WebhookTargetClient: recording stub with symbolic outcomes; http.Response bodies are harness readers", "time.Now arbitrary non-decreasing"},
 	})
@@ -274,6 +278,8 @@ func checks() map[string]CheckDef {
 					"C18/admission-counts-host-and-group", "C18/counters-return-when-peer-leaves", "C18/ban-lasts-the-configured-duration", "C18/expired-ban-is-dropped-on-admission", "C18/ban-kept-until-expiry-then-dropped"}},
 			{Pkg: "transports/p2p", Func: "HarnessBan",
 				Labels: []string{"C18/ban-runs-from-the-latest-ban", "C18/ban-changes-no-counter", "C18/banned-host-is-refused-while-the-ban-runs"}},
+			{Pkg: "transports/p2p", Func: "HarnessBanOtherHost",
+				Labels: []string{"C18/ban-of-one-host-leaves-running-bans-of-others", "C18/banned-host-is-refused-while-the-ban-runs"}},
 			{Pkg: "transports/p2p", Func: "HarnessPeerStateStep", Quick: [][]int64{{0}, {1}, {2}}, Thorough: [][]int64{{3}, {4}},
 				Labels: []string{"C18/counters-always-match-the-peer-lists", "C18/never-above-per-host-limit"}},
 		},
